@@ -86,6 +86,8 @@ pub fn c01(cx: &RunCtx) {
     cx.assume("inputs longer than the explored depth are reached only through the finite pumped families");
     for_each_dom!(c01_dom, cx);
     crate::fam::pumping_all(cx, &[Kind::Panic]);
+    crate::fam::critical_all(cx, &[Kind::Panic]);
+    crate::fam::nested_slips_all(cx, &[Kind::Panic]);
     crate::tchecks::all_ops_trees(cx, &[Kind::Panic]);
 }
 
@@ -100,6 +102,7 @@ pub fn c02(cx: &RunCtx) {
     cx.assume("steps are counted by the cfg-guarded tick() calls (eval entry, evaluator loops, tokenizer, parser); loops without a counter are covered only by the 10 s wall-clock watchdog");
     for_each_dom!(c02_dom, cx);
     crate::fam::pumping_all(cx, &[Kind::Budget]);
+    crate::fam::critical_all(cx, &[Kind::Budget]);
     crate::tchecks::all_ops_trees(cx, &[Kind::Budget]);
 }
 
@@ -116,6 +119,7 @@ pub fn c03(cx: &RunCtx) {
     for_each_dom!(c03_dom, cx);
     crate::fam::per_name_all(cx, &[Kind::MalformedOk, Kind::WellFormedErr, Kind::PrefixOk]);
     crate::fam::pumping_all(cx, &[Kind::MalformedOk, Kind::WellFormedErr, Kind::PrefixOk]);
+    crate::fam::nested_slips_all(cx, &[Kind::MalformedOk, Kind::WellFormedErr, Kind::PrefixOk]);
 }
 
 // ---------------------------------------------------------------- C04
